@@ -346,7 +346,7 @@ class FnEval:
                 return TOP
             out = frozenset()
             for b in base:
-                if isinstance(b, DictLit):
+                if isinstance(b, (DictLit, PyDict)):
                     out = union(out, b.lookup(idx, default=None, has_default=False))
                 elif isinstance(b, str) and isinstance(e.slice, ast.Slice):
                     lo = self._eval(e.slice.lower, nid, env, oo) if e.slice.lower is not None else S(None)
@@ -439,6 +439,13 @@ class FnEval:
         if got is None:
             return TOP
         m, node = got
+        if isinstance(node, (ast.Assign, ast.AnnAssign)):
+            from .modconst import module_constants
+            consts = module_constants(m)
+            if name in consts:
+                v = lift(consts[name], self.repo, m)
+                if v is not TOP:
+                    return v
         if isinstance(node, (ast.FunctionDef,)):
             return S(FuncRef(m, node))
         if isinstance(node, (ast.Assign, ast.AnnAssign)) and node.value is not None:
@@ -476,7 +483,7 @@ class FnEval:
         # dict.get on a literal table
         if isinstance(f, ast.Attribute) and f.attr == "get":
             base = ev(f.value)
-            if base is not TOP and base and all(isinstance(b, DictLit) for b in base):
+            if base is not TOP and base and all(isinstance(b, (DictLit, PyDict)) for b in base):
                 key = ev(e.args[0]) if e.args else TOP
                 default = ev(e.args[1]) if len(e.args) > 1 else S(None)
                 out = frozenset()
@@ -532,6 +539,74 @@ class FnEval:
             if out is TOP:
                 return TOP
         return out
+
+
+class PyDict:
+    """A module-level table folded by sa/modconst.py."""
+
+    def __init__(self, d, repo, mod):
+        self.d, self.repo, self.mod = d, repo, mod
+
+    def __hash__(self):
+        return id(self.d)
+
+    def __eq__(self, o):
+        return isinstance(o, PyDict) and o.d is self.d
+
+    def keys(self):
+        return list(self.d.keys())
+
+    def lookup(self, key, default, has_default):
+        out = frozenset()
+        if key is TOP:
+            sel, miss = list(self.d.values()), True
+        else:
+            sel = [self.d[k] for k in key if _hashable(k) and k in self.d]
+            miss = any((not _hashable(k)) or k not in self.d for k in key)
+        for v in sel:
+            out = union(out, lift(v, self.repo, self.mod))
+            if out is TOP:
+                return TOP
+        if has_default and miss:
+            out = union(out, default)
+        return out
+
+
+def _hashable(k):
+    try:
+        hash(k)
+        return True
+    except TypeError:
+        return False
+
+
+def lift(v, repo, mod, depth=0):
+    """Abstract value set of a folded module-level value."""
+    from .modconst import Opaque
+    if depth > 6:
+        return TOP
+    if isinstance(v, Opaque):
+        return ModEval(repo, mod).eval(v.node)
+    if isinstance(v, dict):
+        return S(PyDict(v, repo, mod))
+    if isinstance(v, (tuple, list)):
+        out = [()]
+        for x in v:
+            lx = lift(x, repo, mod, depth + 1)
+            if lx is TOP:
+                lx = S(Hole("?"))
+            out = [o + (y,) for o in out for y in lx]
+            if len(out) > MAXSET:
+                return TOP
+        return frozenset(out)
+    if isinstance(v, (set, frozenset)):
+        try:
+            return S(frozenset(v))
+        except TypeError:
+            return TOP
+    if v is None or isinstance(v, (str, int, float, bool)):
+        return S(v)
+    return TOP
 
 
 class DictLit:
